@@ -33,10 +33,33 @@ import gevent
 from gevent.server import StreamServer
 
 from slimta import logging
+from slimta.queue import QueueError
+from slimta.relay import RelayError
+from slimta.smtp.reply import Reply
 
-__all__ = ['Edge', 'EdgeServer']
+__all__ = ['Edge', 'EdgeServer', 'get_failure_reply']
 
 log = logging.getSocketLogger(__name__)
+
+
+def get_failure_reply(results):
+    """Checks every ``(envelope, result)`` tuple returned by
+    :meth:`Edge.handoff`, not only the first one: a |QueuePolicy| may have
+    split the message into several envelopes, and the client may only be told
+    the message was accepted if all of them were queued.
+
+    :param results: The list returned by :meth:`Edge.handoff`.
+    :returns: ``None`` if every envelope was queued, otherwise the |Reply| of
+              the first failure.
+
+    """
+    default_reply = Reply('451', '4.3.0 Error queuing message')
+    if not results:
+        return default_reply
+    for _, result in results:
+        if isinstance(result, (QueueError, RelayError)):
+            return getattr(result, 'reply', None) or default_reply
+    return None
 
 
 class Edge(object):
